@@ -149,7 +149,7 @@ class Report:
             rep = {'property': self.prop, 'obligation': ob.name, 'function': getattr(spec, 'ident', ''),
                    'sha256': spec.located.sha256 if getattr(spec, 'located', None) else None,
                    'model': ob.model, 'info': ob.info, 'verifier_output': 'z3: sat (counter-model above)',
-                   'replayed': False}
+                   'replayed': False, 'native_entry': getattr(spec, 'native', None)}
             nat = getattr(spec, 'native', None)
             if nat and n_native < 24 and n_repro < 4:
                 n_native += 1
